@@ -446,7 +446,7 @@ def fortran_programs(tier: str, seed: int):
         long_expr = Bin('+' if i % 3 else '-', long_expr, Bin('*', Var(n, off=-(i % 3)), Var(f'p{i % 5}', 'p')))
     fixed.append((Eq(Var('TOTAL'), long_expr),))
     sampled = []
-    n_s = 60 if tier == 'quick' else 600
+    n_s = 60 if tier == 'quick' else 3000
     pool = [a for a in atoms] + [Var('W'), Var('W', off=-2)]
     def gen(d):
         if d <= 0 or rng.random() < 0.3:
@@ -469,7 +469,7 @@ def fortran_programs(tier: str, seed: int):
         return False
 
     while len(sampled) < n_s:
-        p = tuple(Eq(Var(n), gen(rng.choice([2, 3, 4]))) for n in ['A', 'B'][:rng.choice([1, 2])])
+        p = tuple(Eq(Var(n), gen(rng.choice([2, 3, 4] if tier == 'quick' else [2, 3, 4, 5, 6]))) for n in ['A', 'B', 'C'][:rng.choice([1, 2] if tier == 'quick' else [1, 2, 3])])
         if not const_only_call(p):
             sampled.append(p)
     if tier == 'quick':
@@ -501,7 +501,7 @@ def main() -> int:
     ps = fortran_programs(tier, vlib.seed())
     items = [(p, None) for k in ('fixed', 'exhaustive', 'sampled') for p in ps[k]]
     items += [(p, None, 60) for p in ps['fixed'][-1:]]   # the long equation again with narrower wrapping
-    results = run_items(work, items)
+    results = run_items(work, items, soft_items=ps['sampled'])
     p0 = (Eq(Var('Y'), Bin('+', Var('X', off=-1), Var('Z'))), Eq(Var('Z'), Bin('*', Var('X'), Var('g', 'p'))))
     tw = [work((p0, 'row_swap')), work((p0, 'guard_off'))]
     tot: Dict[str, Any] = {}
